@@ -6,7 +6,7 @@ mutdir, sid, props = sys.argv[1], sys.argv[2], sys.argv[3].split(',')
 dst = f'/verif/seeded/{sid}'
 os.makedirs(dst, exist_ok=True)
 for f in os.listdir(mutdir):
-    if os.path.isfile(f'{mutdir}/{f}') and os.path.getsize(f'{mutdir}/{f}') < 200000:
+    if os.path.isfile(f'{mutdir}/{f}') and os.path.getsize(f'{mutdir}/{f}') < 200000 and os.path.realpath(mutdir) != os.path.realpath(dst):
         shutil.copy(f'{mutdir}/{f}', dst)
 r = subprocess.run(['git', '-C', '/repo', 'apply', f'{mutdir}/patch.diff'], capture_output=True, text=True)
 if r.returncode != 0:
